@@ -406,7 +406,8 @@ class C16(Check):
             'common), unique results, failures for some (collect), count in {default, None, 0..n+1}, consumer eager / '
             'slow (gap) / early break, caller cancelled at up to 3 sampled activation boundaries; start times incl. '
             'negative/fractional. non-trivial = ties, or losers to abort, or slow consumer / break / cancelled caller, '
-            'or failures; distinct by sha1(program+faults).')
+            'or failures; distinct by sha1(program+faults). Also activities that hold or wait for a lock when they are aborted, followed '
+            'by a collect() over users of that lock.')
     budgets = {'quick': dict(examples=3000, procs=4), 'thorough': dict(examples=300000, procs=16)}
     level_text = ('Reference model of completion order and delivery times (max(completion, time the consumer asked)); '
                   'collect: argument order at the slowest time, first failure raised at its time; after the last '
